@@ -421,9 +421,11 @@ PROPS = {
         "assumptions": ["fault model = process kill at system-call boundaries (page cache survives); torn single writes and power loss are not modelled",
                         "strace when= counters are per thread: kills caused by another runtime thread reaching the same ordinal are extra crash points, never missing ones"],
         "quick": {"runs": [{"test": "^TestC20$", "shards": 14, "checks": 6, "timeout": 900},
-                           {"test": "^TestC20Acked$", "shards": 2, "checks": 60, "timeout": 900}]},
+                           {"test": "^TestC20Acked$", "shards": 2, "checks": 60, "timeout": 900},
+                           {"test": "^TestC20Main$", "shards": 2, "checks": 6, "timeout": 900}]},
         "thorough": {"runs": [{"test": "^TestC20$", "shards": 14, "checks": 150, "timeout": 3400},
-                              {"test": "^TestC20Acked$", "shards": 2, "checks": 3000, "timeout": 3400}]},
+                              {"test": "^TestC20Acked$", "shards": 2, "checks": 3000, "timeout": 3400},
+                              {"test": "^TestC20Main$", "shards": 4, "checks": 120, "timeout": 3400}]},
     },
     "C03": {
         "title": "Hostile input is contained to the offending connection",
@@ -483,7 +485,7 @@ _LATER = {
     "C17": "a protected account; kicks aimed at a user who is leaving at that instant; reloads of the ban file racing a ban (the in-memory answer is compared too); TestC17Net (child process, production accept loop): three clients from three loopback addresses, one is kicked with a ban: only its address is refused afterwards, the others reconnect",
     "C18": "stale paths whose last component is missing; the path field absent / empty / zero-count / truncated; delete-item followed by listings of the former sub-paths; posts after deletions keep their parent; TestC18DeepPath: bundles nested 1-40 deep with names of 1-255 bytes (encoded path up to ~5.3 KiB), a category with an article and a reply at the bottom, then nothing / reload / restart: every level lists exactly its child, the articles are listed and fetched, deleting the innermost bundle removes exactly it (non-trivial = encoded path longer than 512 bytes)",
     "C19": "reloads that fail (unreadable file) and posts that fail (unwritable file; the post may or may not count, nothing else may change), reloads during rounds, operator trims of the board between reads, the date stamp of each post compared with the fake clock (minute of day drawn)",
-    "C20": "accounts in the legacy storage form are migrated at start-up (privileges compared over the defined bits); after every kill point the touched accounts are also deleted and, for a crashed rename, the new login is created afresh: both must be acknowledged and no other account may vanish; TestC20Acked also compares the in-memory category with the news file at each acknowledgement and includes news replies",
+    "C20": "accounts in the legacy storage form are migrated at start-up (privileges compared over the defined bits); after every kill point the touched accounts are also deleted and, for a crashed rename, the new login is created afresh: both must be acknowledged and no other account may vanish; TestC20Acked also compares the in-memory category with the news file at each acknowledgement and includes news replies; TestC20Main: the repository's own main program (built from the current tree) is started with -init on a missing configuration directory, the administrator of the default configuration makes 1-4 acknowledged changes over loopback TCP (delete / rename / edit the default guest account, create and delete accounts, board post, news category), the process is killed at the last acknowledgement and started again with or without -init: the account directory (production loader) must hold exactly the accounts the acknowledged changes leave, board and news files the posts and categories, and the restarted server must admit the remaining accounts and refuse the deleted and renamed-away logins",
 }
 for _k, _v in _LATER.items():
     PROPS[_k]["rule"] += "; LATER ADDITIONS: " + _v
